@@ -21,6 +21,10 @@ class Codec(AS.Function):
         [scheme, num_bytes] = utils.check_type(
             metadata, [scheme, num_bytes], AS.Integer
         )
+        if not 0 <= scheme.value < len(self.CODEC_TBL):
+            raise error.UnsuspectedHangeulValueError(
+                metadata, f"{scheme.value}번 변환 방식은 없습니다."
+            )
         self.scheme = self.CODEC_TBL[scheme.value]
         self.num_bytes = num_bytes.value
 
